@@ -35,7 +35,14 @@ def one(kind, name, patch, props, repo):
         ok = True
         for p in props:
             _, rc, cons, err = run_check(p, tree)
-            if kind == "declined":
+            if kind == "seeded-undecided":
+                # a seeded change the checks cannot decide (outside an engine's vocabulary): "cannot decide" or a VIOLATION, never "holds"
+                if rc == 0:
+                    ok = False
+                    msgs.append("%s: the check says the property HOLDS on a seeded change it was recorded as unable to decide" % p)
+                else:
+                    msgs.append("%s: exit %d (%s)" % (p, rc, "now caught" if rc == 1 else "cannot decide"))
+            elif kind == "declined":
                 # a seeded change this family of technique cannot decide (recorded honestly): the check must not crash
                 if rc == 2:
                     ok = False
@@ -69,7 +76,7 @@ def jobs_for(prop=None):
     for d in sorted(glob.glob(os.path.join(VERIF, "seeded", "*", "meta.json"))):
         m = json.load(open(d))
         if prop is None or m["breaks_property"] == prop:
-            todo.append(("declined" if m.get("declined") else "seeded", m["id"], os.path.join(os.path.dirname(d), "patch.diff"), [m["breaks_property"]]))
+            todo.append(("seeded-undecided" if m.get("cannot_decide") else "declined" if m.get("declined") else "seeded", m["id"], os.path.join(os.path.dirname(d), "patch.diff"), [m["breaks_property"]]))
     for d in sorted(glob.glob(os.path.join(HERE, "benign", "*", "patch.diff"))):
         todo.append(("benign", os.path.basename(os.path.dirname(d)), d, [prop] if prop else ALL))
     for d in sorted(glob.glob(os.path.join(HERE, "twins_cross", "*", "meta.json"))):
@@ -93,7 +100,7 @@ if __name__ == "__main__":
     res = run_for_property(prop)
     bad = 0
     for kind, name, st, msg in res:
-        if st != "ok" or kind in ("seeded", "declined", "undecided"):
+        if st != "ok" or kind in ("seeded", "seeded-undecided", "declined", "undecided"):
             print("%-7s %-4s %-10s %s" % (kind, st, name, msg[:200]))
         bad += st == "FAIL"
     na = sum(1 for r in res if r[2] == "n/a")
